@@ -539,3 +539,70 @@ def r8(cx):
         if not any(org['k'] == 'call' and Q.callee_is(org['t'], [Q.re.compile(r'PartialOrd.*::ge$')]) and lab == ('bool', True) for org, lab, e in conds):
             cx.violation(mb.fn, 'early-return-guard', 'move_fd_internal returns the original descriptor without establishing from >= MIN_INTERNAL_FD',
                          loc=mb.loc(s))
+
+
+GUARD_USERS = {
+    # function that creates a RedirGuard -> callee(s) that run the command inside it (None: nothing to run)
+    'yash_semantics::command::compound_command::<impl yash_semantics::command::Command<S> for yash_syntax::syntax::FullCompoundCommand>::execute':
+        [Q.re.compile(r'for yash_syntax::syntax::CompoundCommand>::execute$')],
+    'yash_semantics::command::simple_command::builtin::execute_builtin': ['<indirect>'],
+    'yash_semantics::command::simple_command::function::execute_function':
+        ['yash_semantics::command::simple_command::function::execute_function_body'],
+    'yash_semantics::command::simple_command::external::execute_external_utility':
+        ['yash_semantics::command::simple_command::external::start_external_utility_in_subshell_and_wait'],
+    'yash_semantics::command::simple_command::absent::execute_absent_target': None,
+}
+PERFORM_REDIRS = ["yash_semantics::redir::RedirGuard::<'e, S>::perform_redirs", 'yash_semantics::command::compound_command::perform_redirs']
+
+
+@RS.rule('C09.R5', 'K-SIBLING', 'every command kind creates the guard, applies the redirections through it, and runs the command while the guard is alive')
+def r5(cx):
+    F = cx.F
+    news = F.callers_of(lambda names, t: "yash_semantics::redir::RedirGuard::<'e, S>::new" in names)
+    cx.floor(len(news), 5, 'RedirGuard::new call sites')
+    seen = set()
+    for b, nb, nt in news:
+        cx.fn(b.root)
+        seen.add(b.root)
+        if b.root not in GUARD_USERS:
+            cx.violation(b.root, 'unreviewed-guard-user', 'a new user of RedirGuard that is not in the reviewed table of command kinds',
+                         loc=b.loc(nt))
+            continue
+        du = Q.DefUse(b)
+        perf = Q.find_calls(b, PERFORM_REDIRS)
+        cx.site('%s: guard at %s, perform_redirs at %s' % (b.root, b.loc(nt), [b.loc(t) for _, t in perf]))
+        if not perf:
+            cx.violation(b.root, 'no-perform-redirs', 'the command kind creates a RedirGuard but never applies the redirections', loc=b.loc(nt))
+            continue
+        for pb, pt in Q.check_dominated(b, [(nb, nt)], perf):
+            cx.violation(b.root, 'redirs-outside-guard', 'redirections are applied without the guard that undoes them', loc=b.loc(pt))
+        runs = GUARD_USERS[b.root]
+        if runs is None:
+            continue
+        if runs == ['<indirect>']:
+            run_sites = [(i, t) for i, t in b.calls() if 'indirect' in t['f']]
+        else:
+            run_sites = Q.find_calls(b, runs)
+        if not run_sites:
+            cx.violation(b.root, 'command-not-run', 'the call that runs the command was not found in this executor', loc=b.loc(nt))
+            continue
+        guard_drops = [i for i in b.live_blocks() if b.term(i)['k'] == 'drop' and b.term(i)['ty'].startswith('yash_semantics::redir::RedirGuard<')]
+        undo = [i for i, t in Q.find_calls(b, ["yash_semantics::redir::RedirGuard::<'e, S>::undo_redirs",
+                                                "yash_semantics::redir::RedirGuard::<'e, S>::preserve_redirs"])]
+        for rb, rt in run_sites:
+            cx.site('%s: runs the command at %s' % (b.root, b.loc(rt)))
+            if not any(p != rb and b.dominates(p, rb) for p, _ in perf):
+                cx.violation(b.root, 'run-before-redirs', 'the command runs on a path that has not applied its redirections', loc=b.loc(rt))
+            early = [d for d in guard_drops + undo if d != rb and b.dominates(d, rb)]
+            if early:
+                cx.violation(b.root, 'guard-dropped-before-run', 'the redirections are undone (guard dropped) before the command runs',
+                             loc=b.loc(rt))
+            # the environment handed to the command derives from the guard (through deref_mut, context guards, frames)
+            tainted = Q.forward_taint(b, {nt['dest']['l']})
+            if not any(Q.operand_local(a) in tainted for a in rt['a'] if Q.operand_local(a) is not None):
+                cx.violation(b.root, 'run-outside-guard-env', 'the command is given an environment that does not derive from the guard',
+                             loc=b.loc(rt))
+    for fn in GUARD_USERS:
+        if fn not in seen:
+            cx.violation(fn, 'guard-missing', 'this command kind no longer creates a RedirGuard: its redirections would not be undone',
+                         loc=None)
